@@ -1,7 +1,7 @@
 (* C08 - lexicase filters by randomly ordered cases; winners are never dominated. *)
 From Coq Require Import List ZArith QArith.
 Import ListNotations.
-From UEC Require Import Base.Dist Ec.Select Ec.SelectProps Ec.LexProps Ec.TournamentCor Ec.LexDecisive.
+From UEC Require Import Base.Dist Ec.Select Ec.SelectProps Ec.LexProps Ec.TournamentCor Ec.LexDecisive Ec.LexTied.
 
 (* at each case exactly the candidates with the best result on that case remain *)
 Theorem C08_filter_keeps_best : forall pol pop c C i,
@@ -69,6 +69,14 @@ Print Assumptions C08_zero_cases_uniform.
 Theorem C08_singleton : forall pol r n, prob (lexicase pol [r] n) (is_idx 0) == 1.
 Proof. exact lexicase_singleton. Qed.
 Print Assumptions C08_singleton.
+
+(* when all individuals have the same result on every case considered nobody is ever eliminated: each is selected with
+   probability 1 / (population size), for any number of cases (the closed form used for thousands of cases) *)
+Theorem C08_all_tied_uniform : forall pol pop n i,
+  (2 <= length pop)%nat -> tied_on pol pop (seq 0 n) (seq 0 (length pop)) -> (i < length pop)%nat ->
+  prob (lexicase pol pop n) (is_idx i) == 1 / qnat (length pop).
+Proof. exact lexicase_all_tied. Qed.
+Print Assumptions C08_all_tied_uniform.
 
 Example C08_example :
   (* individual 0 is best on case 0, individual 1 on case 1, individual 2 is dominated by 0 *)
